@@ -382,3 +382,56 @@ func H_C16_history() {
 		}
 	}
 }
+
+// H_C16_extensionLists: custom extension lists - [".jet"], [".jet", ""], [".a", ".b"] and
+// the default order - with a file present or not (symbolic) under the bare name and under
+// each extension: the first lookup loads the first existing candidate in the CONFIGURED
+// order (the bare name is a candidate only if "" is configured), and - whatever the list -
+// asking again for the same name returns the identical template without touching the loader.
+//
+//gosym:reach loaded,notfound
+func H_C16_extensionLists() {
+	lists := [][]string{{"", ".jet", ".html.jet", ".jet.html"}, {".jet"}, {".jet", ""}, {".a", ".b"}, {".b", "", ".a"}}
+	li := ndChoice("list", len(lists))
+	exts := lists[li]
+	all := []string{"", ".jet", ".a", ".b"}
+	l := &c16Loader{exists: map[string]bool{}, openFail: map[string]bool{}, content: map[string]string{}}
+	for _, e := range all {
+		if ndBool("has" + e) {
+			l.exists["/t"+e] = true
+			l.content["/t"+e] = "C" + e
+		}
+	}
+	opts := []Option{}
+	if li > 0 {
+		opts = append(opts, WithTemplateNameExtensions(exts))
+	}
+	set := NewSet(l, opts...)
+	want := ""
+	found := false
+	for _, e := range exts {
+		if l.exists["/t"+e] {
+			want, found = "C"+e, true
+			break
+		}
+	}
+	render := func(t *Template) string {
+		var b bytes.Buffer
+		if t == nil || t.Execute(&b, nil, nil) != nil {
+			return "<err>"
+		}
+		return b.String()
+	}
+	t1, err1 := set.GetTemplate("/t")
+	if !found {
+		vfReach("notfound")
+		vfAssert(err1 != nil, "no configured candidate exists: not found")
+		return
+	}
+	vfReach("loaded")
+	vfAssert(err1 == nil && render(t1) == want, "candidate extensions are tried strictly in the configured order and the first existing file wins")
+	l.calls = nil
+	t2, err2 := set.GetTemplate("/t")
+	vfAssert(err2 == nil && t2 == t1, "asking again for the same name returns the identical template")
+	vfAssert(len(l.calls) == 0, "... without touching the loader")
+}
